@@ -13,6 +13,7 @@ import (
 	"golang.org/x/tools/go/cfg"
 	"golang.org/x/tools/go/packages"
 
+	"verif/internal/core"
 	"verif/internal/flow"
 )
 
@@ -147,8 +148,16 @@ func (x *c09index) canon(o types.Object) types.Object {
 			return o
 		}
 		rhs := c09singleDef(g, v)
+		resIdx := 0
 		if rhs == nil {
-			return o
+			if call, i := c09tupleDef(g, v); call != nil {
+				rhs, resIdx = call, i
+			} else if src := c09soleSource(g, v); src != nil && src != o {
+				o = src
+				continue
+			} else {
+				return o
+			}
 		}
 		switch r := ast.Unparen(rhs).(type) {
 		case *ast.Ident:
@@ -164,9 +173,10 @@ func (x *c09index) canon(o types.Object) types.Object {
 				return o
 			}
 			fd := declOf(x.pkg, fo)
-			if fd == nil || fo.Type().(*types.Signature).Results().Len() != 1 {
+			if fd == nil || fo.Type().(*types.Signature).Results().Len() <= resIdx {
 				return o
 			}
+			nres := fo.Type().(*types.Signature).Results().Len()
 			h := x.fl[fd]
 			var ret types.Object
 			okRet := true
@@ -175,14 +185,14 @@ func (x *c09index) canon(o types.Object) types.Object {
 				case *ast.FuncLit:
 					return false
 				case *ast.ReturnStmt:
-					if len(s.Results) != 1 {
+					if len(s.Results) != nres {
 						okRet = false
 						return true
 					}
-					if tv, ok := h.Info.Types[s.Results[0]]; ok && tv.IsNil() {
+					if tv, ok := h.Info.Types[s.Results[resIdx]]; ok && tv.IsNil() {
 						return true
 					}
-					id, ok := ast.Unparen(s.Results[0]).(*ast.Ident)
+					id, ok := ast.Unparen(s.Results[resIdx]).(*ast.Ident)
 					if !ok {
 						okRet = false
 						return true
@@ -221,14 +231,24 @@ func (x *c09index) canonRoot(g *flow.Func, e ast.Expr) types.Object {
 		}
 		e = def
 	}
-	id := c09root(e)
-	if id == nil {
-		return nil
+	for depth := 0; depth < 4; depth++ {
+		id := c09root(e)
+		if id == nil {
+			return nil
+		}
+		if _, isIndex := c09hasIndex(e); isIndex {
+			return nil // an element of a container has no variable identity
+		}
+		// the root is a local standing for a longer path (`spec := rl.spec; spec.URLs`)
+		if def := c09singleDef(g, c09obj(g, id)); def != nil && c09isPath(def) {
+			if _, isID := ast.Unparen(def).(*ast.Ident); !isID {
+				e = def
+				continue
+			}
+		}
+		return x.canon(c09obj(g, id))
 	}
-	if _, isIndex := c09hasIndex(e); isIndex {
-		return nil // an element of a container has no variable identity
-	}
-	return x.canon(c09obj(g, id))
+	return nil
 }
 
 func c09isPath(e ast.Expr) bool {
@@ -558,4 +578,54 @@ func c09owner(fs []*flow.Func) map[*ast.CallExpr]*flow.Func {
 		}
 	}
 	return out
+}
+
+// c09fieldByType resolves a struct field by its type (role), the declared name only breaks ties:
+// renaming an unexported field does not lose the anchor. Ambiguity / absence is a checker error.
+func c09fieldByType(c *core.Ctx, rel, typ string, fits func(t types.Type) bool, name string) *types.Var {
+	n := namedType(c, rel, typ)
+	if n == nil {
+		return nil
+	}
+	st, ok := n.Underlying().(*types.Struct)
+	if !ok {
+		c.Errorf("anchor: %s.%s is not a struct", rel, typ)
+		return nil
+	}
+	var cands []*types.Var
+	for i := 0; i < st.NumFields(); i++ {
+		if fits(st.Field(i).Type()) {
+			cands = append(cands, st.Field(i))
+		}
+	}
+	if len(cands) == 1 {
+		return cands[0]
+	}
+	for _, v := range cands {
+		if v.Name() == name {
+			return v
+		}
+	}
+	c.Errorf("anchor: field of %s.%s with the role of %q not found (%d candidates by type)", rel, typ, name, len(cands))
+	return nil
+}
+
+func c09isPtrTo(t types.Type, pkgRel, name string) bool {
+	p, ok := t.(*types.Pointer)
+	if !ok {
+		return false
+	}
+	n, ok := p.Elem().(*types.Named)
+	return ok && n.Obj().Pkg() != nil && n.Obj().Pkg().Path() == Mod+pkgRel && n.Obj().Name() == name
+}
+
+// the role-resolved fields of the filter package
+func c09filterFields(c *core.Ctx) (rlF, urlsF, specF *types.Var) {
+	rlF = c09fieldByType(c, c09flt, "URLRule", func(t types.Type) bool { return c09isPtrTo(t, c09lib, "RateLimiter") }, "rl")
+	urlsF = c09fieldByType(c, c09flt, "Spec", func(t types.Type) bool {
+		s, ok := t.(*types.Slice)
+		return ok && c09isPtrTo(s.Elem(), c09flt, "URLRule")
+	}, "URLs")
+	specF = c09fieldByType(c, c09flt, "RateLimiter", func(t types.Type) bool { return c09isPtrTo(t, c09flt, "Spec") }, "spec")
+	return
 }
